@@ -18,6 +18,26 @@ fn sec(n: usize) -> RecordsSection {
     }
 }
 
+pub fn fmt_header(h: &rsdns::message::Header) -> String {
+    let f = h.flags;
+    format!(
+        "H({},{},{},{},{},{}|{},{},{},{},{},{},{})",
+        h.id,
+        u16::from(f),
+        h.qd_count,
+        h.an_count,
+        h.ns_count,
+        h.ar_count,
+        f.message_type().is_response() as u8,
+        f.opcode().value(),
+        f.authoritative_answer() as u8,
+        f.truncated() as u8,
+        f.recursion_desired() as u8,
+        f.recursion_available() as u8,
+        f.response_code().value()
+    )
+}
+
 pub fn fmt_marker(m: &RecordMarker) -> String {
     let off = m.offset();
     // RecordOffset fields are private: Debug is the only public view
@@ -192,17 +212,7 @@ pub fn op_script(a: &[&str]) -> String {
         let res = catch_unwind(AssertUnwindSafe(|| -> String {
             let r = readers[ri].as_mut().unwrap();
             match p[0] {
-                "header" => r2s(r.header(), |h| {
-                    format!(
-                        "H({},{},{},{},{},{})",
-                        h.id,
-                        u16::from(h.flags),
-                        h.qd_count,
-                        h.an_count,
-                        h.ns_count,
-                        h.ar_count
-                    )
-                }),
+                "header" => r2s(r.header(), |h| fmt_header(&h)),
                 "seek" => r2s(r.seek(sec(num(1))), |_| String::new()),
                 "qcount" => format!("ok:{}", r.questions_count()),
                 "rcount" => format!("ok:{}", r.records_count()),
@@ -437,15 +447,7 @@ pub fn op_iter(msg: &[u8]) -> String {
         Err(e) => return format!("new=err:{}", err(&e)),
     };
     let h = mi.header();
-    let mut s = format!(
-        "new=ok:H({},{},{},{},{},{})",
-        h.id,
-        u16::from(h.flags),
-        h.qd_count,
-        h.an_count,
-        h.ns_count,
-        h.ar_count
-    );
+    let mut s = format!("new=ok:{}", fmt_header(h));
     s.push_str(&format!(" Q={}", r2s(mi.question(), |q| fmt_q(&q))));
     s.push_str(" QS=[");
     let mut end = "end".to_string();
